@@ -326,7 +326,11 @@ pub fn install_first_panic_recorder() {
             .unwrap_or_default();
         let loc = info.location().map(|l| format!("{}:{}", l.file(), l.line())).unwrap_or_default();
         let lib = raised_by_library(&loc);
-        eprintln!("panicked: {msg} at {loc}{}", if lib { " (inside constriction)" } else { "" });
+        // (parallel explorers can panic in every worker: print the first few only)
+        static PRINTED: std::sync::atomic::AtomicUsize = std::sync::atomic::AtomicUsize::new(0);
+        if PRINTED.fetch_add(1, std::sync::atomic::Ordering::Relaxed) < 5 {
+            eprintln!("panicked: {msg} at {loc}{}", if lib { " (inside constriction)" } else { "" });
+        }
         LAST_PANIC.with(|p| *p.borrow_mut() = Some((msg.clone(), loc.clone())));
         if let Ok(mut g) = OPEN_PANICS.lock() {
             if g.len() < 64 { g.push((std::thread::current().id(), msg, loc, lib)); }
